@@ -152,6 +152,16 @@ def execute(ctx, case):
               "bootstrap samples / intervals under the same seed differ from the equivalent Scores", "fraud-bootstrap-cfg", config={k: str(v) for k, v in cfg_kw.items()})
     sw, rsw = fs.swap(), ref.swap()
     C(sw == rsw, "swap differs from the equivalent Scores", "fraud-swap")
+    # equality is a query like any other: against every other object the fraud view answers what the equivalent Scores answers
+    r_sc = "pos" if scl == "genuine" else "neg"
+    others = {"equal_class": Scores(g, f, nb_easy_pos=ep, nb_easy_neg=en, score_class=r_sc, equal_class="neg"),
+              "score_class": Scores(g, f, nb_easy_pos=ep, nb_easy_neg=en, score_class="neg" if r_sc == "pos" else "pos", equal_class="pos"),
+              "easy_count": Scores(g, f, nb_easy_pos=ep + 1, nb_easy_neg=en, score_class=r_sc, equal_class="pos"),
+              "classes_exchanged": Scores(f, g, nb_easy_pos=ep, nb_easy_neg=en, score_class=r_sc, equal_class="pos"),
+              "same": Scores(g, f, nb_easy_pos=ep, nb_easy_neg=en, score_class=r_sc, equal_class="pos")}
+    for what_, o_ in others.items():
+        C((fs == o_) == (ref == o_) and (o_ == fs) == (o_ == ref) and (fs != o_) == (ref != o_), "== / != against another Scores object differ from the equivalent Scores",
+          "fraud-eq", differs_in=what_, fraud_eq=bool(fs == o_), scores_eq=bool(ref == o_))
     # from_labels with an arbitrary genuine label
     # (any label type: ints either way round, strings, booleans either way round - an is_fraud column has genuine_label=False -, floats)
     for glab, other in ((1, 0), ("ok", "bad"), (7, 3), (0, 1), (False, True), (True, False), (0.0, 1.0), ("", "fraud")):
